@@ -307,8 +307,25 @@ def _make_callable(name):
             "functools.partial": lambda: functools.partial(_f_default, k=2),
             "object.__call__(self, *args)": lambda: _Star(), "stateful object": lambda: _Nth(),
             "bound method": lambda: _Nth().__call__, "builtin type": lambda: str,
+            "generator function": lambda: _f_gen,
             "Call(obj, call=name)": lambda: lena.core.Call(_Named(), call="other"),
             "Call(callable obj, call=name)": lambda: lena.core.Call(_NamedCallable(), call="other")}[name]()
+
+
+def _f_gen(v):
+    """A plain callable that happens to be written as a generator function: applied to every value like
+    any other callable, its result (a generator object) is the new value."""
+    yield ("gen", v)
+    yield ("gen2", v)
+
+
+def _norm_result(r):
+    import types
+    if isinstance(r, types.GeneratorType):
+        return ("generator", [_norm_result(x) for x in r])
+    if isinstance(r, tuple):
+        return tuple(_norm_result(x) for x in r)
+    return r
 
 
 class _Named(object):
@@ -325,7 +342,7 @@ class _NamedCallable(_Named):
 
 CALLABLES = ["Call(obj, call=name)", "Call(callable obj, call=name)", "def f(v)", "def f(*args)", "def f(*args, **kwargs)", "def f(v, k=1)", "lambda v",
              "functools.partial", "object.__call__(self, *args)", "stateful object", "bound method",
-             "builtin type"]
+             "builtin type", "generator function"]
 _BUF = [0]
 CALL_FLOWS = {"empty": lambda: [], "one": lambda: [7], "distinct": lambda: [1000, 1001, 1002],
               "one object three times": lambda: [3000 + 0 * i for i in range(3)] and [_BUF, _BUF, _BUF],
@@ -360,6 +377,9 @@ def check_callables(res):
                         got = list(lena.core.Sequence(f, _make_callable(name)).run(iter(flow)))
                     else:
                         got = list(lena.core.Sequence(lena.core.Split([f])).run(iter(flow)))
+                    if name == "generator function":
+                        got = [_norm_result(x) for x in got]
+                        expected = [_norm_result(x) for x in expected]
                     observed = repr(got)
                     ok = got == expected
                 except Exception as e:
